@@ -695,9 +695,9 @@ theorem joins_pairwise (js : List Join) (h : SM.allDistinct (js.map (·.id)) = t
   rw [List.pairwise_map] at this
   exact this
 
-/-- the seat manager after an accepted `batchAddPlayers` -/
-theorem batchAdd_ok_placed (s : State) (js : List Join) (ch : List Int) (hl : BatchLegal s js ch)
-    (hok : (batchAdd s js ch).2 = .ok) :
+/-- the seat manager after a `batchAddPlayers` that the seat manager did not refuse (accepted, or panicked while appending) -/
+theorem batchAdd_noerr_placed (s : State) (js : List Join) (ch : List Int) (hl : BatchLegal s js ch)
+    (hok : ∀ e, (batchAdd s js ch).2 ≠ .err e) :
     Placed s js (batchAdd s js ch).1.sm ∧ js.Pairwise (fun a c => a.id ≠ c.id) := by
   unfold batchAdd at hok ⊢
   by_cases hd : SM.allDistinct (js.map (·.id)) = true
@@ -715,7 +715,7 @@ theorem batchAdd_ok_placed (s : State) (js : List Join) (ch : List Int) (hl : Ba
         refine ⟨s.sm, by simp [he], by rw [hnil]; rfl, by rw [hnil]; simp, by rw [hnil]; simp, by rw [hnil]; simp⟩
       · simp only [he, Bool.false_eq_true, if_false] at hok ⊢
         cases ha : (SM.assign s.sm (fixedMap js)).2 with
-        | err e => rw [ha] at hok; simp at hok
+        | err e => rw [ha] at hok; exact absurd rfl (hok _)
         | ok =>
           obtain ⟨f0, f1, f2, f3⟩ := SM.assign_ok_facts s.sm (fixedMap js) (fixedMap_pairwise_ids js) ha
           exact ⟨(SM.assign s.sm (fixedMap js)).1, by rw [← ha], f0, f1, f2, f3⟩
@@ -744,7 +744,7 @@ theorem batchAdd_ok_placed (s : State) (js : List Join) (ch : List Int) (hl : Ba
         refine ⟨sm1, by simp [he], [], rfl, by simp, by simp, by simp, by simp, by rw [hnil]; simp, by simp⟩
       · simp only [he, Bool.false_eq_true, if_false] at hok ⊢
         cases ha : (SM.randomAssign sm1 (randomIds js) ch).2 with
-        | err e => rw [ha] at hok; simp at hok
+        | err e => rw [ha] at hok; exact absurd rfl (hok _)
         | ok =>
           obtain ⟨g0, g1, g2, g3, g4, g5⟩ := SM.randomAssign_ok_facts sm1 (randomIds js) ch (hl' (by simpa using he)) ha
           refine ⟨(SM.randomAssign sm1 (randomIds js) ch).1, by rw [← ha], (randomIds js).zip ch, g0, g1, g2, g3, g4, ?_, ?_⟩
@@ -777,7 +777,13 @@ theorem batchAdd_ok_placed (s : State) (js : List Join) (ch : List Int) (hl : Ba
         rw [List.mem_map] at this
         obtain ⟨j, hj, hje⟩ := this
         exact ⟨j, (List.mem_filter.mp hj).1, hje⟩
-  · simp [hd] at hok
+  · simp only [hd, Bool.not_false, if_true] at hok; exact absurd rfl (hok _)
+
+/-- the seat manager after an accepted `batchAddPlayers` -/
+theorem batchAdd_ok_placed (s : State) (js : List Join) (ch : List Int) (hl : BatchLegal s js ch)
+    (hok : (batchAdd s js ch).2 = .ok) :
+    Placed s js (batchAdd s js ch).1.sm ∧ js.Pairwise (fun a c => a.id ≠ c.id) :=
+  batchAdd_noerr_placed s js ch hl (fun e h => by rw [hok] at h; cases h)
 
 /-- where the seat manager put a newcomer is where `GetSeatID` finds him -/
 theorem placed_seatOf (s : State) (js : List Join) (sm' : SM.State) (hp : Placed s js sm') (hu : SM.IdsUnique s.sm)
@@ -949,6 +955,54 @@ theorem batchAdd_err_fields (s : State) (js : List Join) (ch : List Int) (hu : S
         · rename_i hap; simp only [hap] at hnp; exact absurd rfl hnp
         · exact absurd rfl hne
   · simp [hd]
+
+/-- a panic of `batchAddPlayers` is the appending loop running off the seat map -/
+theorem batchAdd_panic_shape (s : State) (js : List Join) (ch : List Int) (hp : (batchAdd s js ch).2 = .panic) :
+    appendPlayers (batchAdd s js ch).1.sm js s.players s.seatMap = none := by
+  unfold batchAdd at hp ⊢
+  by_cases hd : SM.allDistinct (js.map (·.id)) = true
+  · simp only [hd, Bool.not_true, Bool.false_eq_true, if_false] at hp ⊢
+    cases h1 : (if (fixedMap js).isEmpty then (s.sm, SM.Res.ok) else SM.assign s.sm (fixedMap js)).2 with
+    | err e => simp only [h1] at hp; exact absurd hp (by simp)
+    | ok =>
+      simp only [h1] at hp ⊢
+      cases h2 : (if (randomIds js).isEmpty then ((if (fixedMap js).isEmpty then (s.sm, SM.Res.ok) else SM.assign s.sm (fixedMap js)).1, SM.Res.ok)
+          else SM.randomAssign (if (fixedMap js).isEmpty then (s.sm, SM.Res.ok) else SM.assign s.sm (fixedMap js)).1 (randomIds js) ch).2 with
+      | err e => simp only [h2] at hp; exact absurd hp (by simp)
+      | ok =>
+        simp only [h2] at hp ⊢
+        split at hp
+        · rename_i hap; simp only [hap]
+        · exact absurd hp (by simp)
+  · simp only [hd, Bool.not_false, if_true] at hp; exact absurd hp (by simp)
+
+theorem appendPlayers_some (sm : SM.State) (js : List Join) (ps : List Player) (m : List Int)
+    (h : ∀ j ∈ js, 0 ≤ SM.seatOf sm j.id ∧ SM.seatOf sm j.id < m.length) : appendPlayers sm js ps m ≠ none := by
+  induction js generalizing ps m with
+  | nil => simp [appendPlayers]
+  | cons j t ih =>
+    obtain ⟨h0, hn⟩ := h j (List.mem_cons_self)
+    unfold appendPlayers
+    simp only
+    have hne : ¬ SM.seatOf sm j.id = -1 := by omega
+    simp only [hne, if_false, h0, hn, and_self, if_true]
+    apply ih
+    intro j' hj'
+    have := h j' (List.mem_cons_of_mem _ hj')
+    simpa using this
+
+/-- **`batchAddPlayers` does not panic on a table whose books agree**: the seat manager found every newcomer a seat of the
+table, so the appending loop stays inside the seat map -/
+theorem batchAdd_no_panic (s : State) (js : List Join) (ch : List Int) (hb : Booked s) (ha : Agree s)
+    (hl : BatchLegal s js ch) : (batchAdd s js ch).2 ≠ .panic := by
+  intro hp
+  have hu := sm_unique s hb ha
+  obtain ⟨hpl, _⟩ := batchAdd_noerr_placed s js ch hl (fun e h => by rw [hp] at h; cases h)
+  refine appendPlayers_some _ js s.players s.seatMap ?_ (batchAdd_panic_shape s js ch hp)
+  intro j hj
+  obtain ⟨h0, hn, _, _⟩ := placed_seatOf s js _ hpl hu j hj
+  refine ⟨h0, ?_⟩
+  rw [hb.2, ← ha.maxSeat]; exact hn
 
 /-- **`UpdateTablePlayers` / `PlayerReserve` arrivals keep seat manager and table in agreement** (the recorded draw being
 legal and the call not having panicked) -/
